@@ -680,6 +680,23 @@ func recordC20(env *Env) {
 		a, b := mulOperands(k)
 		emit(fpCase{G: "mul", A: a, B: b})
 	}
+	// 256-bit products whose partial rows carry through a zero limb of one operand into a limb already close to
+	// 2^64 (a carry chain two limbs long), both orders
+	{
+		hi := ^uint64(0)
+		for _, a1 := range []uint64{hi, hi - 1} {
+			for _, a0 := range []uint64{1, 1 << 32, 1 << 63, hi} {
+				for _, b0 := range []uint64{hi, hi - 1, 1 << 63} {
+					for _, b2 := range []uint64{1, 2, hi} {
+						a := bytesOf20([]uint64{a0, a1, 0, 0})
+						b := bytesOf20([]uint64{b0, 0, b2, 0})
+						emit(fpCase{G: "mul", A: a, B: b})
+						emit(fpCase{G: "mul", A: b, B: a})
+					}
+				}
+			}
+		}
+	}
 	for i := 0; i < nDiv; i++ {
 		k := 2
 		if i < nDivBig {
